@@ -191,7 +191,7 @@ pub fn run(ctx: &Ctx) {
     }
     // saved corpus (fuzzer findings): files named <entry>__<anything>
     ctx.set_section("corpus");
-    let dir = std::path::PathBuf::from(crate::fw::VERIF_DIR).join("corpus").join("c20");
+    let dir = std::path::PathBuf::from(crate::fw::verif_dir()).join("corpus").join("c20");
     let mut files: Vec<std::path::PathBuf> = std::fs::read_dir(&dir).map(|rd| rd.filter_map(|e| e.ok()).map(|e| e.path()).filter(|p| p.is_file()).collect()).unwrap_or_default();
     files.sort();
     for (i, p) in files.iter().enumerate() {
